@@ -10,7 +10,7 @@ from common import *
 import model, findings as F
 from props import base
 
-PROPS_MODULES = ["ShexerModel.Props.C06", "ShexerModel.Props.GenStr"]
+PROPS_MODULES = ["ShexerModel.Props.C06", "ShexerModel.Props.GenStrCorners", "ShexerModel.Props.GenStrLiteral"]
 DEPS = ["S.remove_corners", "S.decide_literal_type"]
 replay = base.replay
 
